@@ -998,6 +998,20 @@ static int do_regsweep(int lo, int hi)
 			ncase++;
 		}
 	}
+	/* capacity after frames nobody listens for: 1..3 frames of 2 / 600 / 1500 / 2047 octets to a DLCI without a handler,
+	 * then one frame of 2 / 1000 / 2047 octets to a registered DLCI - it must arrive whatever was discarded before */
+	if (lo == 0) {
+		static const int N1[4] = { 2, 600, 1500, 2047 }, N2[3] = { 2, 1000, 2047 };
+		int a, r, b, k;
+		for (a = 0; a < 4; a++) for (r = 1; r <= 3; r++) for (b = 0; b < 3; b++) {
+			char *p = casebuf;
+			p += sprintf(p, "G5");
+			for (k = 0; k < r; k++) p += sprintf(p, ",S4.%d.41.42.43,P", N1[a]);
+			p += sprintf(p, ",S5.%d.44.45.46,P,I", N2[b]);
+			run_tokens(casebuf);
+			ncase++;
+		}
+	}
 	reg_all = 1;
 	int hd = report_unconfirmed();
 	fprintf(res, "{\"regsweep_cases\": %lu, \"frames\": %lu, \"exact_deliveries\": %lu, \"frames_to_unregistered_dlci\": %lu, \"wire_octets\": %lu, \"history_dependent_keys\": %d, \"verify_requests\": %lu, \"violations\": %lu}\n",
